@@ -66,6 +66,39 @@ func (c *chunkReader) Read(p []byte) (int, error) {
 	return n, nil
 }
 
+// sumKeeper polls Sum(nil) after every chunk, keeps the returned slices and verifies that
+// an earlier result is not changed by later writes and sums, and that scribbling on a
+// returned slice does not influence the next result (the slice is the caller's)
+type sumKeeper struct {
+	kept [][]byte
+	copy [][]byte
+	bad  string
+}
+
+func (k *sumKeeper) poll(hs []*hashio.Hasher) {
+	for i, s := range k.kept {
+		if !bytes.Equal(s, k.copy[i]) && k.bad == "" {
+			k.bad = "sum-result-changed-later"
+		}
+	}
+	for _, h := range hs {
+		s := h.Sum(nil)
+		_ = h.Size()
+		k.kept = append(k.kept, s)
+		k.copy = append(k.copy, append([]byte{}, s...))
+		t := h.Sum(nil)
+		for j := range t {
+			t[j] ^= 0xff
+		}
+		if u := h.Sum(nil); !bytes.Equal(u, s) && k.bad == "" {
+			k.bad = "sum-result-shared-with-caller"
+		}
+		if len(k.kept) > 64 {
+			k.kept, k.copy = k.kept[32:], k.copy[32:]
+		}
+	}
+}
+
 var hashioImpl = map[string]core.Adapter{
 	"hashpipe": func(a []string) string {
 		mode := a[0]
@@ -74,6 +107,7 @@ var hashioImpl = map[string]core.Adapter{
 		chunks := ct.list()
 		var hashers []*hashio.Hasher
 		var sink bytes.Buffer
+		keeper := &sumKeeper{}
 		switch mode {
 		case "w1":
 			w, h, err := hashio.NewHasherWriter(names[0], &sink)
@@ -82,17 +116,29 @@ var hashioImpl = map[string]core.Adapter{
 			}
 			hashers = []*hashio.Hasher{h}
 			if all := strings.Join(chunks, ""); (len(all)+len(chunks))%4 == 1 {
-				// the writer driven by io.Copy (through ReadFrom when the writer offers it)
-				if n, err := io.Copy(w, iotest.DataErrReader(strings.NewReader(all))); err != nil || int(n) != len(all) {
+				// the writer driven by io.Copy (through ReadFrom when the writer offers it; a
+				// strings.Reader source writes itself with io.WriteString)
+				var src io.Reader = strings.NewReader(all)
+				if len(all)%2 == 0 {
+					src = iotest.DataErrReader(src)
+				}
+				if n, err := io.Copy(w, src); err != nil || int(n) != len(all) {
 					return "short-write"
 				}
 				chunks = nil
 			}
-			for _, c := range chunks {
-				if n, err := w.Write([]byte(c)); err != nil || n != len(c) {
+			for i, c := range chunks {
+				var n int
+				var err error
+				if (i+len(c))%3 == 1 {
+					n, err = io.WriteString(w, c) // the StringWriter path, if the writer offers one
+				} else {
+					n, err = w.Write([]byte(c))
+				}
+				if err != nil || n != len(c) {
 					return "short-write"
 				}
-				_, _ = h.Sum(nil), h.Size() // polling a partial digest must not disturb the final one
+				keeper.poll(hashers) // polling a partial digest must not disturb the final one
 			}
 		case "wn":
 			w, hs, err := hashio.NewHasherWriters(names, &sink)
@@ -101,18 +147,27 @@ var hashioImpl = map[string]core.Adapter{
 			}
 			hashers = hs
 			if all := strings.Join(chunks, ""); (len(all)+len(chunks))%4 == 1 {
-				if n, err := io.Copy(w, iotest.DataErrReader(strings.NewReader(all))); err != nil || int(n) != len(all) {
+				var src io.Reader = strings.NewReader(all)
+				if len(all)%2 == 0 {
+					src = iotest.DataErrReader(src)
+				}
+				if n, err := io.Copy(w, src); err != nil || int(n) != len(all) {
 					return "short-write"
 				}
 				chunks = nil
 			}
-			for _, c := range chunks {
-				if n, err := w.Write([]byte(c)); err != nil || n != len(c) {
+			for i, c := range chunks {
+				var n int
+				var err error
+				if (i+len(c))%3 == 1 {
+					n, err = io.WriteString(w, c)
+				} else {
+					n, err = w.Write([]byte(c))
+				}
+				if err != nil || n != len(c) {
 					return "short-write"
 				}
-				for _, h := range hs {
-					_, _ = h.Sum(nil), h.Size()
-				}
+				keeper.poll(hs)
 			}
 		case "r1", "rn":
 			all := []byte(strings.Join(chunks, ""))
@@ -168,10 +223,13 @@ var hashioImpl = map[string]core.Adapter{
 					return "short-read"
 				}
 				sink.Write(buf)
-				for _, h := range hashers {
-					_, _ = h.Sum(nil), h.Size()
-				}
+				keeper.poll(hashers)
 			}
+		}
+		keeper.poll(hashers)
+		keeper.poll(nil)
+		if keeper.bad != "" {
+			return keeper.bad
 		}
 		var xs []string
 		for _, h := range hashers {
